@@ -64,6 +64,38 @@ fn main() {
             let case = driver::case_for(&prop, seed, idx, Tier::Quick);
             println!("{}", serde_json::to_string_pretty(&case).unwrap());
         }
+        "one" => {
+            // one <PROP> <run>: generate, execute and judge a single run in this process
+            let Some(prop) = a.get(2).and_then(|id| props::find(id)) else { usage() };
+            let idx: u64 = a.get(3).and_then(|s| s.parse().ok()).unwrap_or(0);
+            exec::process_init();
+            let case = driver::case_for(&prop, seed, idx, Tier::Quick);
+            let mut st = stats::Stats::default();
+            let vs = (prop.check)(&case, &mut st);
+            if a.iter().any(|x| x == "--case") { println!("{}", serde_json::to_string_pretty(&case).unwrap()); }
+            for v in &vs { println!("rule={} step={} {}\n  witness={}", v.rule, v.step, v.msg, v.witness); }
+            println!("{} violation(s); outcomes={:?}", vs.len(), st.outcomes);
+        }
+        "trace" => {
+            // trace <PROP> <run> | trace <replay-file>: print the history of the primary script
+            exec::process_init();
+            let case = if let Some(prop) = a.get(2).and_then(|id| props::find(id)) {
+                driver::case_for(&prop, seed, a.get(3).and_then(|s| s.parse().ok()).unwrap_or(0), Tier::Quick)
+            } else {
+                let rf: script::ReplayFile = serde_json::from_slice(&std::fs::read(&a[2]).expect("read")).expect("parse");
+                rf.case
+            };
+            println!("args={:?} tcp={} log={} tick={}", case.script.args, case.script.tcp, case.script.log_level, case.script.tick_us);
+            let h = exec::run(&case.script);
+            for e in &h.seam { if !matches!(e, exec::SeamEv::Read { .. }) { println!("seam {:?}", e); } }
+            for (i, s) in h.steps.iter().enumerate() {
+                let keys: Vec<String> = s.after.keys().map(|k| format!("{:06X}", k)).collect();
+                println!("#{} c{} o{} t={:.6} {:?} tag={} lines={:?} rows={:?} out={}B", i, s.conn, s.op, (s.t_us - exec::T0_US) as f64 / 1e6, s.kind, s.tag, s.lines.iter().map(|l| script::escape(l)).collect::<Vec<_>>(), keys, s.out.len());
+                if a.iter().any(|x| x == "--rows") { for r in s.after.values() { println!("     {}", serde_json::to_string(r).unwrap()); } }
+                if a.iter().any(|x| x == "--out") && !s.out.is_empty() { println!("{}", s.out); }
+            }
+            println!("outcome={:?} end_t={:.6} unread_ops={}", h.outcome, (h.end_t_us - exec::T0_US) as f64 / 1e6, h.unread_ops);
+        }
         "digest" => {
             // digest <PROP> <seed> <start> <stride> <n>  -> one line per run
             let prop = props::find(&a[2]).expect("prop");
